@@ -29,3 +29,16 @@ package actions
 //@     invariant forall k int, c chan struct{} :: 0 <= k && k <= idx3 ==> !waiting(subIDs[k], c)
 //@     invariant has(pubWaiters, subIDs[idx3 + 1])
 //@     invariant forall c chan struct{} :: visited(c) ==> !has(pubWaiters[subIDs[idx3 + 1]], c)
+
+// C04: retry deadline = min(maxBackoff, minBackoff x 1.1^n) (defaults 10 s / 10 min), plus less than 1 s of jitter,
+// no jitter for delays of at most half a second. float64 is treated as real arithmetic.
+//@ func NextDelayFor(sub, attempts) (nominalDelay, fuzzedDelay)
+//@   property C04
+//@   uses backoff
+//@   checked
+//@   requires sub != nil && attempts >= 0
+//@   requires effmax(sub) <= 8640000000000000
+//@   ensures nominal: nominalDelay == trunc(nominal_backoff(sub, attempts))
+//@   ensures jitter: 0 <= fuzzedDelay - nominalDelay && fuzzedDelay - nominalDelay < 1000000000
+//@   ensures small_delays_exact: nominal_backoff(sub, attempts) <= 500000000.0 ==> fuzzedDelay == nominalDelay
+//@   modifies nothing
